@@ -428,6 +428,16 @@ func (x *g) stmtOf(what string) {
 		x.line("%s = %s", name, x.callExpr(fv, 2))
 		x.declare(name, fv.fn.ret, nil)
 	case "expr":
+		if x.chance(0.25, "bare-expr") {
+			// expression statements without an observer: a bare name, a parenthesised name, any expression
+			x.f("bare-expr-stmt")
+			if vs := x.visible(KAny); len(vs) > 0 && x.chance(0.5, "bare-name") {
+				x.line([]string{"%s", "(%s)"}[x.intn(2, "bareform")], vs[x.intn(len(vs), "barev")].name)
+			} else {
+				x.line("%s", x.expr(x.pickKind(), 2))
+			}
+			return
+		}
 		x.line("t(%s, %s)", x.tag(), x.expr(x.pickKind(), 3))
 	case "mutate":
 		x.mutate()
@@ -514,11 +524,14 @@ func (x *g) stmtOf(what string) {
 		}
 		x.f("risky-use-before-assignment")
 		n := x.fresh("u")
-		form := x.intn(3, "ubdform")
-		if form == 0 && x.sc.file && x.opts.GlobalReassign {
+		form := x.intn(4, "ubdform")
+		if (form == 0 || form == 3) && x.sc.file && x.opts.GlobalReassign {
 			form = 1 // a plain top-level use before the first binding is a static error in this dialect
 		}
 		switch form {
+		case 3: // an expression statement that is just the name
+			x.f("bare-name-stmt")
+			x.line([]string{"%s", "(%s)", "(%s,)"}[x.intn(3, "bareform")], n)
 		case 0:
 			x.line("t(%s, %s)", x.tag(), n)
 		case 1: // through a nested function: the name is a free variable (or a global) of it
